@@ -47,3 +47,32 @@ def bind(fn, name, init_pat):
                 fn._renames[name] = tgt
                 return tgt
     return name
+
+
+def bind_names(fn, mapping):
+    """Commit renamed-local bindings found by structural means: {table name: current name}."""
+    if fn is None:
+        return
+    fn.defs(0)
+    for want, cur in mapping.items():
+        if cur and want != cur and want not in fn._names.values():
+            if not hasattr(fn, "_renames"):
+                fn._renames = {}
+            fn._renames.setdefault(want, cur)
+
+
+def arg_var(call, i):
+    """Name of the variable passed (possibly by address) as argument i of a call node."""
+    a = strip(call["a"][i]) if i < len(call.get("a", [])) else {}
+    while a.get("k") == "un" and a["op"] in ("&", "*"):
+        a = strip(a["e"])
+    return a.get("name") if a.get("k") == "ref" else None
+
+
+def locals_of_type(fn, typ):
+    out = []
+    for pt, e in sorted(fn.points()):
+        for n in own_walk(e):
+            if n.get("k") == "decl" and n.get("t") == typ:
+                out.append(n["name"])
+    return out
